@@ -2,6 +2,7 @@ package checks
 
 import (
 	"fmt"
+	"regexp"
 	"strings"
 
 	"pgregory.net/rapid"
@@ -36,7 +37,7 @@ type C19Case struct {
 const c19MaxK = 64
 
 func genC19(t *rapid.T) any {
-	kind := rapid.SampledFrom([]string{"fn", "fn", "fn", "fn", "type", "raise", "selector", "aggdata", "orderkey"}).Draw(t, "kind")
+	kind := rapid.SampledFrom([]string{"fn", "fn", "fn", "fn", "type", "raise", "selector", "aggdata", "orderkey", "path"}).Draw(t, "kind")
 	c := &C19Case{Kind: kind}
 	if kind == "orderkey" {
 		// a sort key that cannot be read on the rows being sorted (index beyond a nested array, a path through a
@@ -229,6 +230,7 @@ func checkC19(c *C19Case) Result {
 	base := Run(val.CopyMap(w.Doc), sqlF, w.opts())
 	res.Execs++
 	n := int(injCalls())
+	nScalar := injScalarCalls()
 	if !base.OK() {
 		if base.Panic != "" {
 			res.Discard = "fault-free run panics (C10)"
@@ -298,6 +300,45 @@ func checkC19(c *C19Case) Result {
 			}
 		}
 		return res
+	}
+	if c.Kind == "path" {
+		// a type error of the selector kind: the expression at the position is a column reference that holds a
+		// scalar in at least one evaluated row (seen by the counting function of the fault-free run); a key step
+		// applied to it descends into a scalar, which the selector language rejects
+		expr := ms[c.Plant].Expr
+		if !c19ColumnRef.MatchString(expr) || c19NotAColumn[strings.ToUpper(expr)] {
+			res.Discard = "the expression at the position is not a plain column reference"
+			return res
+		}
+		if nScalar == 0 {
+			res.Discard = "the column never holds a scalar where the position is evaluated"
+			return res
+		}
+		// (no probe of the simplest position here: that a step applied to a value of the wrong shape yields an error
+		// is the documented meaning of the selector language, C09)
+		wrap := "`%s.zq`"
+		if c.Plant%2 == 1 {
+			wrap = "`%s.zq.zr`"
+		}
+		injReset(0, 0)
+		sql := w.SQL(c.Plant, wrap)
+		doc := val.CopyMap(w.Doc)
+		out := Run(doc, sql, w.opts())
+		res.Execs++
+		res.NonTrivial = true
+		if out.Panic != "" {
+			res.Violation = fmt.Sprintf("%s\n  panic escaped: %s", sql, out.Panic)
+			return res
+		}
+		if out.OK() {
+			res.Violation = fmt.Sprintf("type error at position %s is swallowed: a key step on a scalar\n  %s\n  returned %s\n  (%s holds a scalar in %d of the %d evaluations of the position in %s; a step applied to a value of the wrong shape yields an error)", pos, sql, val.JSON(out.Rows), expr, nScalar, n, sqlF)
+			return res
+		}
+		if out.ErrRows > 0 {
+			res.Violation = fmt.Sprintf("%s\n  returned an error together with %d rows", sql, out.ErrRows)
+			return res
+		}
+		return c19AfterFailure(c, w, doc, pristineFollow, sql, &res)
 	}
 	if c.Kind == "type" {
 		// metamorphic: an expression the engine rejects in the simplest position must be rejected at
@@ -520,6 +561,9 @@ func c19Grid(st *Stats) (string, any) {
 	return "", nil
 }
 
+var c19ColumnRef = regexp.MustCompile(`^[A-Za-z_][A-Za-z0-9_]*(\.[A-Za-z_][A-Za-z0-9_]*)?$`)
+var c19NotAColumn = map[string]bool{"TRUE": true, "FALSE": true, "NULL": true}
+
 func init() {
 	Register(&Prop{
 		ID:    "C19",
@@ -529,7 +573,7 @@ func init() {
 			"joins incl. PARALLEL/HASH, CTEs (also referenced twice), derived tables, select-item/IN/EXISTS subqueries on the row and on `<-`, UNION chains, " +
 			"ORDER BY/LIMIT, DISTINCT, nested FROM, LIKE/IS; Wrapped or not) and one of its fault positions; kind fn: a fault-free run counts the N " +
 			"invocations of the planted function, then EVERY k in 1..N (cap 64, reported) is executed with the function returning an error at its k-th " +
-			"invocation (a sixth of them under the ONCE qualifier; after every third failing Exec the same Query object is executed again without the fault and must return the fault-free result); kind type: an expression the engine rejects in the simplest position is planted at the position; kind raise: RAISE / " +
+			"invocation (a sixth of them under the ONCE qualifier; after every third failing Exec the same Query object is executed again without the fault and must return the fault-free result); kind type: an expression the engine rejects in the simplest position is planted at the position; kind path: where the expression at the position is a column reference that held a scalar in the fault-free run, a key step is appended to it (`col.zq`: a key step on a scalar, rejected by the selector language in the simplest position); kind raise: RAISE / " +
 			"RAISE_WHEN in select lists, CTE bodies, derived tables and row-scoped subqueries (half of them with side-channel options such as an UnReportedErrors handler installed) with an engine-evaluated probe deciding whether it " +
 			"fires. Oracle: New/Exec return an error and no rows (no panic); afterwards the same query without the fault and SELECT * on the SAME input " +
 			"object return what they return on a pristine copy. Non-trivial: N >= 2 (failures mid-stream), a planted type error, or a RAISE that fires. " +
